@@ -131,6 +131,13 @@ Proof.
     inversion G; subst.
     assert (In (p, h_id (c_prim cx)) (e_live e)) by (apply In_live_of; rewrite <- Ip; left; reflexivity).
     split; auto.
+  - (* EOpenFull *)
+    pose proof (I1 p) as Ip. unfold conn_ids in Ip.
+    destruct (find_ctx p (s_ctxs s)) as [cx|]; [|discriminate].
+    destruct ((h_act (c_prim cx) || (0 <? strong s (h_id (c_prim cx)))) && s_ka s); [|discriminate].
+    inversion G; subst.
+    assert (In (p, h_id (c_prim cx)) (e_live e)) by (apply In_live_of; rewrite <- Ip; left; reflexivity).
+    split; auto.
 Qed.
 
 (* under the two-per-peer assumption an established connection is always taken (never "third") *)
